@@ -10,14 +10,14 @@ UNITS_LOCAL = {"C20": [
          flags=ASAN, env=_ENV, opt="-O1", engine="gridmc",
          budget={"quick": 300, "thorough": 900},
          rule="every (writer in {writePPM, writePGM, writePFM<float>, writePFM<vec3f>, writePFM<vec3fa>, writePFM<vec4f>}) x (w,h) in [1,4]^2 (thorough [1,6]^2) "
-              "x fill pattern byte[p] = (p*k + t + 91*(p>>8)) mod 256 for t in 0..255, k = 37 (thorough k in {1,37,101,255}) "
+              "x fill pattern byte[p] = (p*k + t + 91*(p>>8)) mod 256 for t in 0..255, k = 37 (thorough k in {37,255}) "
               "x placement {heap block of exactly w*h pixels, the same pixels inside a block with 64 filler bytes on each side}; "
               "the file is decoded by the harness (magic, dimensions, maxval/scale, payload length, every selected component; rows bottom-up for PPM/PGM, as given for PFM). "
               "distinct = distinct file contents",
          assumptions=["writePGM's grey value is component 3 (the top byte) of the RGBA8 pixel, as the writer's 1-of-4 component selection does; "
                       "writePPM takes components 0..2, writePFM<vec3fa> components 0..2 of 4",
                       "whitespace after the payload is accepted (the writers append a newline)",
-                      "pixel values are not enumerated beyond the 256 (1024) fill patterns: the writer copies components without value-dependent control flow"]),
+                      "pixel values are not enumerated beyond the 256 (512) fill patterns: the writer copies components without value-dependent control flow"]),
     Unit("trace", ["harness/C20_trace.cpp"], repo_src=["rkcommon/tracing/Tracing.cpp"],
          flags=ASAN, env=_ENV, opt="-O2", engine="seqmc",
          budget={"quick": 400, "thorough": 1500},
